@@ -4,7 +4,7 @@ CONSTANTS
   SlackNew = 0
   TolSlack = 10
   RateBand = 5
-  DivergeBand = 300
+  DivergeBand = 700
 INIT TInit
 NEXT TNext
 INVARIANT Verdict
